@@ -325,14 +325,14 @@ func (rn *runner) quiet(ks oidc.KeySet, g *gate, callers []*callerState) bool {
 	}
 	inflight, _, _ := rp.VerifC13Inspect(ks)
 	_, gated := g.state()
+	if gated != inflight { // download neither parked in the gate nor over: cheap test first
+		return false
+	}
 	st := string(stackBuf[:runtime.Stack(stackBuf, true)])
 	if parked(st, "remoteKeySet).keysFromRemote(") != unfinished {
 		return false
 	}
-	if gated {
-		return inflight && parked(st, "main.(*gate).RoundTrip(") >= 1
-	}
-	return !inflight
+	return !gated || parked(st, "main.(*gate).RoundTrip(") >= 1
 }
 
 func (rn *runner) quiesce(ks oidc.KeySet, g *gate, callers []*callerState) {
@@ -341,7 +341,7 @@ func (rn *runner) quiesce(ks oidc.KeySet, g *gate, callers []*callerState) {
 		wait = rn.maxWait / 10
 	}
 	deadline := time.Now().Add(wait)
-	ok := 0
+	ok, polls := 0, 0
 	for {
 		if rn.quiet(ks, g, callers) {
 			ok++
@@ -360,7 +360,11 @@ func (rn *runner) quiesce(ks oidc.KeySet, g *gate, callers []*callerState) {
 			}
 			break
 		}
-		time.Sleep(150 * time.Microsecond)
+		if polls++; polls < 40 {
+			runtime.Gosched() // let the goroutines the step woke up run
+		} else {
+			time.Sleep(100 * time.Microsecond)
+		}
 	}
 	if rn.settle > 0 {
 		time.Sleep(rn.settle)
